@@ -153,6 +153,10 @@ class Mon:
         self.env_resets = 0
         self.unattributed = 0
         self.learn_calls = 0
+        self.memory = None  # the 1-step replay memory handed to the off-policy loops
+        self.learning_delay = 0
+        self.starved = {}  # id(agent) -> environment steps taken with a ready buffer since its last learn() call
+        self.starvation_reported = False
         self.bandit_obs_shapes = set()
         self.select_calls = 0
         self.abort = False
@@ -212,6 +216,24 @@ class Mon:
             return
         self.see(a)
         self.true[id(a)] += n
+        if self.loop in ("off", "ma_off") and self.memory is not None:
+            self.guard(self._learn_progress, a, n)
+
+    def _learn_progress(self, a, n):
+        """Bounded progress of 'rollout -> buffer -> sampler -> learn()': once the buffer could serve a batch (and the learning
+        delay is over) already BEFORE this step, the documented learning frequency (every learn_step environment steps; several
+        updates per vector step when there are more sub-environments than that) leaves at most max(learn_step, num_envs)
+        environment steps between two learn() calls of the acting agent. Twice that plus one vector step is allowed."""
+        have = len(self.memory)
+        ls = int(getattr(a, "learn_step", 1))
+        if have >= int(getattr(a, "batch_size", 1)) + n and have > self.learning_delay + n:
+            self.starved[id(a)] = self.starved.get(id(a), 0) + n
+            self.rec.hit("learn_progress_checks")
+            if self.starved[id(a)] > 2 * max(ls, n) + n and not self.starvation_reported:
+                self.starvation_reported = True
+                self.rec.violate("learn_progress", "no_learn_call_although_the_buffer_can_serve_batches", self.fn, **self.detail(
+                    agent_index=a.index, learn_step=ls, env_steps_without_learn=self.starved[id(a)], buffer_len=have,
+                    batch_size=int(getattr(a, "batch_size", 1)), learning_delay=self.learning_delay, learn_calls_so_far=self.learn_calls))
 
     def on_env_reset(self):
         self.env_resets += 1
@@ -224,6 +246,7 @@ class Mon:
 
     def on_learn(self, agent, experiences):
         self.learn_calls += 1
+        self.starved[id(agent)] = 0
         if self.loop == "offline" and not self.in_test:
             self.see(agent)
             self.true[id(agent)] += 1
@@ -1256,6 +1279,8 @@ def run_case(case):
                 env.reset()  # as the documentation does before building the population
             fn = _train_fn(loop)
             mon = Mon(rec, case, n_pop)
+            mon.memory = kw.get("memory")
+            mon.learning_delay = int(kw.get("learning_delay", 0) or 0)
             mon.register_pop(pop)
             given_ids = [a.index for a in pop]
             crashed = None
